@@ -252,7 +252,7 @@ fn member(rng: &mut Rng, luau: bool) -> String {
     let kind = rng.below(10);
     let rhs = match kind {
         0..=4 => format!("require(\"{}\")", rng.pick_s(&["path.to.mod", "b", "a", "./x", "pkg/z"])),
-        5 => format!("require(script.Parent.{})", rng.pick_s(&["Foo", "Bar", "Baz"])),
+        5 => format!("require(script.Parent.{})", rng.pick_s(&["Foo", "Bar", "Baz", "A", "a", "Module", "utils", "React"])),
         6 => format!("require \"{}\"", rng.pick_s(&["m", "n"])),
         7 => format!("require(\"{}\").field", rng.pick_s(&["m", "n"])),
         _ => format!("game:GetService(\"{}\")", rng.pick_s(&["Players", "RunService", "Workspace"])),
